@@ -6,7 +6,7 @@ from mkprops import write
 IMP = """From Coq Require Import List Arith Bool NArith.
 From FFSM2 Require Import Model.TaskList Model.BitArray Model.BitStream Model.Plan Model.Ancestors Model.Machine
   Proofs.BitArrayProofs Proofs.TaskListProofs Proofs.TaskListRun Proofs.PlanProofs Proofs.MachineFrame Proofs.MachinePlan Proofs.MachineLife Proofs.GuardProofs Proofs.CycleProofs Proofs.PlanStep
-  Proofs.SerialProofs Proofs.LogProofs Proofs.MachineTop Model.Multi Generated.InitFacts Proofs.ConstructProofs Proofs.LifeMonitor Proofs.ActivationRounds Proofs.IndexSafety Proofs.FeatureProofs Model.Script Proofs.Contract Proofs.Histories.
+  Proofs.SerialProofs Proofs.LogProofs Proofs.MachineTop Model.Multi Generated.InitFacts Proofs.ConstructProofs Proofs.LifeMonitor Proofs.ActivationRounds Proofs.IndexSafety Proofs.FeatureProofs Model.Script Proofs.Contract Proofs.Histories Proofs.StatusBits.
 Import ListNotations."""
 
 VOC = ("Vocabulary: Ready cfg s a = the machine is at a point where requests are processed (or between API calls) with state a < n active, "
@@ -256,6 +256,20 @@ SPECS["C12"][1].extend([
 ])
 
 SPECS["C06"][1].insert(-1, ("C06_every_view_of_every_history", "every_view_of_every_history", "over whole histories: every callback delivered anywhere in any in-contract history sees stateId() = its own id (255 for the root) and an isActive() table that is the characteristic vector of a single id - consistent for every k at once"))
+
+SPECS["C08"][1].insert(-1, ("C08_every_plan_step_of_every_history", "every_plan_step_of_every_history", "over whole histories: at the plan step of every update()/react() of every in-contract history the state active when the call began is still the active one, the plan satisfies its invariant and both report bit arrays are well formed - the hypotheses under which the statements of this file describe the step - and the call is: six phase deliveries; the plan step from that state; request processing"))
+SPECS["C09"][1].insert(-1, ("C09_every_plan_step_of_every_history", "every_plan_step_of_every_history", "over whole histories: the hypotheses of the case statements above hold at the plan step of every update()/react() of every in-contract history"))
+SPECS["C09"][1].insert(-1, ("C09_failure_delivered_in_every_history", "failure_delivered_in_every_history", "the converse over whole histories: in any cycle of any history in which a plan exists and the active state has a failure outstanding when the plan step runs, planFailed() is delivered in that cycle, no task fires and the plan is empty afterwards"))
+SPECS["C18"][1].extend([
+   ("C18_report_bits_well_formed_in_every_reachable_state", "reachable_status_bits", "over whole histories: in every state any in-contract history reaches, tasksSuccesses and tasksFailures hold exactly ceil(n/8) bytes (PIw, closed under every operation of the machine: PIw_ok)"),
+   ("C18_report_bit_indices_in_range", "reachable_status_bits_in_range", "... so every succeed/fail/clear/plan-step access with a state id below n is inside both arrays"),
+   ("C18_invariant_with_report_bits_is_closed", "PIw_ok", ""),
+])
+
+_EPS = "over whole histories: every update(), react(), immediateChangeTo() and immediateChangeWith() of every in-contract history processes requests exactly once, from a Ready state reached by callbacks that applied no transition - so every statement of this file made for process_request on a Ready state holds for every processing step of every history"
+for _pid in ("C02", "C03", "C04", "C11"):
+    SPECS[_pid][1].append(("%s_every_processing_step_of_every_history" % _pid, "every_processing_step_of_every_history", _EPS))
+SPECS["C07"][1].insert(-1, ("C07_every_processing_step_of_every_history", "every_processing_step_of_every_history", _EPS))
 
 if __name__ == "__main__":
     which = sys.argv[1:] or sorted(SPECS)
